@@ -358,8 +358,12 @@ func (p *Proto) releaseWrappers() map[*ssa.Function]bool {
 	return out
 }
 
-func checkC05ContextOwner(w *World, r *Report, p *Proto) {
-	ru := r.Rule("C05.5", "pooled contexts have one owner: for every Get of a tree's context pool, on every path the context is released exactly once (Put, deferred Put/Close) or handed to the caller, never used after release and never dropped", 5)
+func checkC05ContextOwner(w *World, r *Report, p *Proto) { checkContextOwnerAs(w, r, p, "C05.5") }
+
+// checkContextOwnerAs also runs under C16: a context that is taken from the pool on the request path and not put back
+// makes the pool allocate a new one for a later request.
+func checkContextOwnerAs(w *World, r *Report, p *Proto, id string) {
+	ru := r.Rule(id, "pooled contexts have one owner: for every Get of a tree's context pool, on every path the context is released exactly once (Put, deferred Put/Close) or handed to the caller, never used after release and never dropped", 5)
 	ru.Idiom("tree.ctx.Put(c) followed by return", "defer tree.ctx.Put(c)", "defer c.Close()", "return c (ownership passes to the caller as ContextCloser)")
 	wrappers := p.releaseWrappers()
 	nGets := 0
@@ -510,6 +514,6 @@ func checkC05ContextOwner(w *World, r *Report, p *Proto) {
 		}
 	}
 	if nGets < 5 {
-		r.Unrecognised("C05.5: only %d pooled-context acquisitions found", nGets)
+		r.Unrecognised("%s: only %d pooled-context acquisitions found", id, nGets)
 	}
 }
